@@ -32,4 +32,9 @@ func commonChecks(run *Run) {
 	for _, h := range run.Harness {
 		run.fail("HARNESS", "harness", "harness", "%s", h)
 	}
+	for _, e := range run.Reals {
+		if e.Net != nil && (e.Net.LogOverflow() || e.Net.TapOverflow()) {
+			run.Discard = "log-overflow"
+		}
+	}
 }
